@@ -582,6 +582,9 @@ func runEventSteps(r *Run, l *layout, trace bool) ([]byte, [][]byte, []byte, boo
 				ds[i] = d
 			}
 			fs[p] = map[string]any{"kind": "file", "docs": ds}
+			if e.Raw != nil {
+				fs[p].(map[string]any)["raw"] = string(e.Raw) // the exact text (a style variant), for replays
+			}
 		case "symlink":
 			fs[p] = map[string]any{"kind": "symlink", "target": e.Target}
 		default:
